@@ -7,7 +7,7 @@ from . import shared, field, norm, weight, profile, conv2
 def run(ctx):
     repo = Repo(ctx.dev)
     r_norm, N = norm.rule_norm("C16", repo)
-    rules = [field.rule_pure("C16", repo), r_norm, norm.rule_id_guard("C16", repo, N), weight.rule_weight_group("C16", repo), weight.rule_weight_lines("C16", repo),
+    rules = [field.rule_pure("C16", repo), r_norm, shared.rule_eq_reads("C16", repo, ["crate::groups::G", "crate::groups::AffineG"]), norm.rule_id_guard("C16", repo, N), weight.rule_weight_group("C16", repo), weight.rule_weight_lines("C16", repo),
              norm.rule_prep_immut("C16", repo), field.rule_tower_consts("C16", repo)]
     # no operation of the register file (G1, G2, Fr values) can panic, whatever the history left in its operands (release MIR)
     repo_rel = Repo(ctx.rel)
